@@ -1,10 +1,10 @@
 (* C05 — Concurrent use keeps frames atomic, messages unmixed and is free of data races.
-   Statements only; proofs in Proofs/SchedP.v and Proofs/SchedAckP.v.  The model (Model/Sched.v) is the small-step interleaving semantics of
+   Statements only; proofs in Proofs/SchedP.v, Proofs/SchedAckP.v and Proofs/SchedProgressP.v.  The model (Model/Sched.v) is the small-step interleaving semantics of
    the write side's synchronisation skeleton: any number of goroutines calling Write / Writer / Ping / Close / CloseNow
    (and the read side echoing a Close frame), one micro-step at a time in ANY order, with the connection closable from
    outside at any moment.  Every theorem quantifies over ALL schedules, thread counts and programs. *)
 From Coq Require Import List Arith Bool.
-From WS Require Import Model.Sched Proofs.SchedP Proofs.SchedAckP.
+From WS Require Import Model.Sched Proofs.SchedP Proofs.SchedAckP Proofs.SchedProgressP.
 Import ListNotations.
 
 (* each frame is written atomically: a transport write continues the frame of the previous write, or — only after that
@@ -61,3 +61,35 @@ Theorem C05_wire_started : forall is_client progs sched e,
   In e (wire s) -> e_call e <= ncall (thrs s (e_tid e)).
 Proof. exact sched_wire_started. Qed.
 Print Assumptions C05_wire_started.
+
+
+(* PROGRESS (no deadlock among the write-side locks).  In every reachable OPEN state in which some thread is not finished and the
+   message lock is not held by a thread that has left its message (the wart of a streamed write that gave up: see C10 — the
+   connection is then closed), SOME thread can take a step. *)
+Theorem C05_no_deadlock : forall is_client progs sched, let s := run (init is_client progs) sched in
+  closed s = false ->
+  (exists t, ph (thrs s t) <> Idle \/ calls (thrs s t) <> []) ->
+  (forall h, msg_mu s = Some h -> dataph (ph (thrs s h))) ->
+  exists t alt s', step s (EStep t alt) = Some s'.
+Proof. exact sched_no_deadlock. Qed.
+Print Assumptions C05_no_deadlock.
+
+(* ... and once the connection is closed every unfinished thread can step — the closer waiting to force-lock the frame lock behind
+   a frame in flight being the one exception, and then that frame's writer can step — and needs at most 3 steps to finish its call. *)
+Theorem C05_closed_progress : forall is_client progs sched t, let s := run (init is_client progs) sched in
+  closed s = true ->
+  ph (thrs s t) <> Idle \/ calls (thrs s t) <> [] ->
+  match ph (thrs s t) with
+  | ForceFrame =>
+      (exists alt s', step s (EStep t alt) = Some s') \/
+      (exists h, frame_mu s = Some h /\ h <> t /\ holds (ph (thrs s h)) /\ exists alt s', step s (EStep h alt) = Some s')
+  | _ => exists alt s', step s (EStep t alt) = Some s'
+  end.
+Proof. exact sched_closed_progress. Qed.
+Print Assumptions C05_closed_progress.
+
+Theorem C05_closed_bounded : forall is_client progs sched t alt s', let s := run (init is_client progs) sched in
+  closed s = true -> ph (thrs s t) <> Idle -> step s (EStep t alt) = Some s' ->
+  closed s' = true /\ steps_left (ph (thrs s' t)) < steps_left (ph (thrs s t)) <= 3.
+Proof. exact sched_closed_bounded. Qed.
+Print Assumptions C05_closed_bounded.
